@@ -523,6 +523,27 @@ def rule_reset_triggers(ctx, crate, rule="R-EST-RESET-TRIGGERS"):
             te, fe = fe, te
         if src[1]["op"] == "Lt" and a == new and isprev(c) or src[1]["op"] == "Gt" and isprev(a) and c == new:
             back_edges.append(te)
+    if not back_edges:
+        # the same test spelled with a negation or a named flag (`let back = !(new >= prev); if back {..}`): edges whose
+        # implied comparison facts contain new_steps < prev_steps
+        from . import c13
+        for sb, t in b.switches():
+            l = operand_local(t["op"])
+            if l is None or b.locals[l]["ty"] != "bool" or t["op"]["place"]["p"]:
+                continue
+            tf = true_false_edges(b, sb, t)
+            if not tf:
+                continue
+            for e_, fn_ in ((tf[0], c13.true_facts), (tf[1], c13.false_facts)):
+                fs = fn_(b, t["op"], sb)
+                if fs == c13.ALL:
+                    continue
+                for f in fs:
+                    if f[0] not in ("Lt", "Gt"):
+                        continue
+                    x, y = (f[1], f[2]) if f[0] == "Lt" else (f[2], f[1])          # x < y
+                    if x == ("l", steps_p[0]) and y[0] == "p" and "prev_steps" in y[2] and e_ not in back_edges:
+                        back_edges.append(e_)
     ctx.floor(rule, len(back_edges), 1, cfg, "`new_steps < prev_steps` edges in Estimator::record")
     rets = [i for i in b.reachable() if b.term(i) and b.term(i)["k"] == "return"]
     resets = {c.bb for c in b.calls(r"state::Estimator::reset")}
